@@ -36,6 +36,18 @@ CHECKS = {
         technique="TLA+ generator spec (DocWriter.tla) composed with the reference parser (DocCheck.tla), TLC; exact replay "
                   "into the real parser",
         ref="DESIGN.md §5 C02"),
+    'C03': dict(
+        text="L2T.tla states the documented conversion rules on the node records of the reference parser, instantiated "
+             "with symbol / format / accent / specials / environment tables extracted from the text database; TLC renders "
+             "every strictly parseable string up to the bound under 4 whitespace policies x keep_comments x "
+             "keep_braced_groups x 4 math modes and checks the compositionality consequence on pairs of self-contained "
+             "blocks; latex_to_text must return exactly the model's text for every combination, and the join equalities "
+             "must hold on the implementation.",
+        note="Bounded: strings <=3/4 atoms over a 37-atom core alphabet (757k renderings in the quick tier), 14x14 block "
+             "pairs. fill_text is outside C03. The risk that the model encodes a misreading is mitigated by exact agreement "
+             "on every rule family (see DESIGN.md).",
+        technique="TLA+ renderer spec (L2T.tla) composed with the reference parser, TLC; exact replay into latex_to_text",
+        ref="DESIGN.md §5 C03"),
     'C04': dict(
         text="Encoder.tla is the documented rule semantics (NFC, left-to-right, first matching rule of the three kinds "
              "supplies replacement and consumption, protection with per-rule override, pass-through, unknown_char_policy, "
@@ -75,6 +87,20 @@ CHECKS = {
         technique="TLA+ reference parser in both modes with Tier-A invariants (TLC); replay; TLC acceptors for outcomes and "
                   "trees",
         ref="DESIGN.md §5 C06"),
+    'C07': dict(
+        text="The Outcome acceptor (kind text) demands a string for every input and option set. Inputs come from "
+             "specifications: every string up to the bound (ParseRun export), every name of the default walker and text "
+             "databases instantiated into every use shape CallShapes.tla enumerates for its extracted signature (mandatory "
+             "slots empty/filled/single token, optional slots absent/empty/filled, star, empty and tabular bodies) in 8 "
+             "contexts (top level, in \\textbf, in math, unbraced argument of \\emph/\\frac/\\sqrt/accent, in a list), and "
+             "seeded name soups; each is parsed once and rendered under all 128 option sets; every non-string outcome and "
+             "a sample of the rest is judged by TLC.",
+        note="Totality is the only prediction outside the core sublanguage (exact oracle: C03). Quick tier samples every 4th "
+             "name per signature group; thorough covers every name. Bounded time = 5 s CPU per call.",
+        technique="TLA+ enumeration of call shapes (CallShapes.tla) and strings (ParseRun.tla) with TLC; real outcomes "
+                  "validated by TLC (Outcome.tla)",
+        category='model_checking',
+        ref="DESIGN.md §5 C07"),
     'C09': dict(
         text="A TLA+ model makes the state that survives between parse calls explicit (cached standard-argument parser "
              "instances and their lazily created inner parsers, the verbatim nesting counter, frozen databases) and TLC "
